@@ -2381,6 +2381,35 @@ func ruleWIN3(c *Ctx) []Ob {
 				}
 			}
 		}
+		// the plan builder: a function that makes a window node
+		buildsWindow := false
+		for _, f := range c.LibFuncs {
+			if rootFunc(f) != rootFunc(fn) {
+				continue
+			}
+			for _, b := range f.Blocks {
+				for _, in := range b.Instrs {
+					if al, ok := in.(*ssa.Alloc); ok {
+						if nn, ok := al.Type().Underlying().(*types.Pointer).Elem().(*types.Named); ok && c.nodeKind(nn) == "window" {
+							buildsWindow = true
+						}
+					}
+					// or through the constructor of the window node
+					if cl, ok := in.(*ssa.Call); ok {
+						if tgt := staticCallee(cl); tgt != nil && c.IsLib(c.declared(tgt)) {
+							res := tgt.Signature.Results()
+							for i := 0; i < res.Len(); i++ {
+								if pt, ok := res.At(i).Type().Underlying().(*types.Pointer); ok {
+									if nn, ok := pt.Elem().(*types.Named); ok && c.nodeKind(nn) == "window" {
+										buildsWindow = true
+									}
+								}
+							}
+						}
+					}
+				}
+			}
+		}
 		k := 0
 		hintOnly := c.capacityHintOnly(rootFunc(fn), 0)
 		allCalls(fn, func(ci ssa.CallInstruction) {
@@ -2410,7 +2439,17 @@ func ruleWIN3(c *Ctx) []Ob {
 					case *ssa.BinOp:
 						switch x.Op {
 						case token.EQL, token.NEQ, token.LSS, token.LEQ, token.GTR, token.GEQ:
-							// a test
+							// a test: where the plan is built (whether a window node is needed) or the count is
+							// answered from the counter. Anywhere else a test of the limit or the skip decides
+							// something about the documents - an early stop after `limit` collected documents
+							// takes Limit(-5) for "stop at once" where the window node takes it for "no limit"
+							answersNumber := false
+							if rf := rootFunc(fn); rf.Signature.Results().Len() > 0 && isIntType(rf.Signature.Results().At(0).Type()) {
+								answersNumber = true
+							}
+							if !(readsSize && answersNumber) && !buildsWindow {
+								bad = "a test (" + x.Op.String() + ") at " + relPath(c, x.Pos()) + " in a function that neither builds the plan nor answers from the counter"
+							}
 						default:
 							if !readsSize {
 								bad = "arithmetic (" + x.Op.String() + ") at " + relPath(c, x.Pos())
@@ -2444,6 +2483,21 @@ func ruleWIN3(c *Ctx) []Ob {
 							for _, lr := range realReferrers(al) {
 								if u, ok := lr.(*ssa.UnOp); ok && u.Op == token.MUL {
 									follow(u, depth+1)
+								}
+								// captured by a function literal: the loads of the captured variable in there
+								if mc, ok := lr.(*ssa.MakeClosure); ok {
+									if lit, ok := mc.Fn.(*ssa.Function); ok {
+										for bi, bnd := range mc.Bindings {
+											if bnd != ssa.Value(al) || bi >= len(lit.FreeVars) {
+												continue
+											}
+											for _, fr := range realReferrers(lit.FreeVars[bi]) {
+												if u, ok := fr.(*ssa.UnOp); ok && u.Op == token.MUL {
+													follow(u, depth+1)
+												}
+											}
+										}
+									}
 								}
 							}
 							continue
